@@ -325,7 +325,7 @@ def listing_rule(ctx, rid):
 def glob_escape_rule(ctx, rid):
     """Progress is counted with glob patterns built from the crop's folder: a folder name is data, not a pattern -- `[`, `]`,
     `*`, `?` in it must be escaped, or the listing finds nothing and the crop is never reported sown / grown / ready."""
-    rr = ctx.rule(rid, "glob patterns over the crop's files escape the crop's own location (a folder named `run[1]` is not a character class)", floor=3)
+    rr = ctx.rule(rid, "glob patterns over the crop's files escape the crop's own location (a folder named `run[1]` is not a character class)", floor=1)
     m = ctx.prog.modules["xyzpy.gen.cropping"]
     for fi in m.all_funcs:
         for n, c, nm in all_calls(ctx, fi):
